@@ -172,6 +172,19 @@ def run(ctx):
             one_ = np.asarray(teneva.ind_qtt_to_tt(bits_ref[0].copy(), q))
             okq = okq and one_.shape == (d_,) and [int(x) for x in one_] == idxs[0]
             ctx.check(okq, 'ind_maps:big-q', 'index maps at q = %d, d = %d are not the little-endian bit maps / not inverse to each other' % (q, d_))
+    # mode sizes next to large powers of two are not powers of two (exact integer test, whatever the magnitude)
+    for q in (10, 20, 31, 32, 40, 49, 50, 52, 53, 54, 60, 62):
+        for off in (-1, 1, -2, 2, 3):
+            nbad = (1 << q) + off
+            raised = False
+            try:
+                teneva.ind_tt_to_qtt(np.array([[1, 0]]), nbad)
+            except ValueError:
+                raised = True
+            except Exception as ex:
+                raised = type(ex).__name__
+            ctx.case(key=('reject-big', q, off), nontrivial=q >= 49)
+            ctx.check(raised is True, 'ind_tt_to_qtt:reject', 'ind_tt_to_qtt(I, n = 2^%d%+d) must raise ValueError (got %s)' % (q, off, 'a result' if raised is False else raised))
     # non powers of two are rejected
     for n in (3, 5, 6, 12):
         raised = [False, False, False]
